@@ -22,6 +22,7 @@ var propFuncs = map[string][]string{
 	"C08": {"number", "floor", "ceiling", "count", "sum", "string", "string-length"},
 	"C09": {"concat", "contains", "starts-with", "ends-with", "substring-before", "substring-after", "substring", "string-length", "normalize-space", "translate", "lower-case", "string-join", "string"},
 	"C12": {"count", "reverse"},
+	"C13": {"not", "boolean", "true", "false", "position", "last", "count"},
 	"C14": {"name", "local-name", "namespace-uri"},
 	"C16": {"matches", "replace"},
 }
